@@ -69,9 +69,14 @@ void ezc3d::DataNS::AnalogsNS::Analogs::subframe(const ezc3d::DataNS::AnalogsNS:
     if (idx == SIZE_MAX)
         _subframe.push_back(subframe);
     else{
-        if (idx >= nbSubframes())
+        if (idx >= nbSubframes()){
+            // The subframe sent may be one of this collection (e.g. analogs.subframe(0)), which moves when the collection grows
+            ezc3d::DataNS::AnalogsNS::SubFrame copy(subframe);
             _subframe.resize(idx+1);
-        _subframe[idx] = subframe;
+            _subframe[idx] = copy;
+        }
+        else
+            _subframe[idx] = subframe;
     }
 }
 
